@@ -880,6 +880,22 @@ impl Job for Mutate {
     }
 }
 
+/// C06: a proof that is honest up to the query phase but asks for at least as many queries as the LDE domain has points
+/// (produced with ClampCoin), verified with the honest coin
+pub struct Overquery;
+impl Job for Overquery {
+    fn run<B: SField, H: ElementHasher<BaseField = B> + Sync + Send>(&mut self, sc: &Scenario) -> Value {
+        let b = build::<B>(sc);
+        let proof = match prove_with::<B, H, crate::rec::ClampCoin<H>>(sc, b.cols.clone(), None) {
+            Ok(p) => p,
+            Err(e) => return json!({"id": sc.id, "prove": e}),
+        };
+        let bytes = proof.to_bytes();
+        let o = judge_bytes::<B, H>(&bytes, &bytes, usize::MAX, &b.inputs);
+        json!({"id": sc.id, "prove": "ok", "outcome": o, "class": LAST_CLASS.with(|c| c.borrow().clone())})
+    }
+}
+
 pub fn main(args: &[String]) -> i32 {
     use std::io::BufRead;
     let mode = args.get(0).map(|s| s.as_str()).unwrap_or("");
@@ -911,6 +927,7 @@ pub fn main(args: &[String]) -> i32 {
             "mutate" => dispatch(&mut mutate, sc),
             "complete" => dispatch(&mut Complete, sc),
             "sound" => dispatch(&mut Sound, sc),
+            "overquery" => dispatch(&mut Overquery, sc),
             m => {
                 eprintln!("harness: unknown stark mode {m}");
                 return 2;
